@@ -272,6 +272,48 @@ pub fn run(prop: &'static str, tier: Tier) -> ! {
         families.push(json!({"family": "S8: two patterns of one mode share a token type and differ in their lookahead", "configurations": cfgs.len(), "inputs": "{a,b,x}^<=3", "exhaustive": true}));
     }
 
+    // long inputs with lookaheads: the lookahead fixtures and veryl on their input files, synthetic
+    if prop != "C07" {
+        let cases = crate::longscan::long_cases(true);
+        let mut t2 = tables.clone();
+        let mut keys = vec![];
+        for c in &cases {
+            keys.extend(c.1.atom_keys());
+        }
+        keys.sort();
+        keys.dedup();
+        if let Err(e) = bridge::tabulate_atoms(&keys, &mut t2) {
+            refsem::evidence::machinery(&format!("cannot tabulate atoms of the corpora: {e}"));
+        }
+        let accs = par_for(cases.len(), 1, || Acc { samples: Samples::new(1), ..Default::default() }, |acc, i| {
+            let (name, cfg, input) = &cases[i];
+            acc.cfgs += 1;
+            acc.scans += 1;
+            let Ok(lr) = crate::longscan::LongRef::new(cfg) else { return };
+            let toks = match bridge::catch(|| cfg.build_uncached().map(|sc| bridge::scan_all(&sc, input))) {
+                Ok(Ok(Ok(t))) => t,
+                _ => {
+                    if prop == "C05" {
+                        acc.viol.add("", || Violation { key: String::new(), summary: format!("{name}: build or scan failed or panicked"), replay: json!({"case": name, "configuration": cfg.to_json(), "input_bytes": input.len()}) });
+                    }
+                    return;
+                }
+            };
+            let (n, competed, d) = lr.compare_stream(input, &toks, &t2);
+            acc.stats.tokens += n;
+            acc.stats.competed += competed;
+            if let Some(d) = d {
+                // a wrong stream on a lookahead configuration is reported by both C04 and C05
+                acc.viol.add("", || Violation { key: String::new(), summary: format!("{name}: {d}"), replay: json!({"case": name, "configuration": cfg.to_json(), "input_bytes": input.len(), "input_prefix": input.chars().take(60).collect::<String>(), "disagreement": d}) });
+            }
+            acc.samples.push(|| json!({"family": "long inputs", "case": name, "input_bytes": input.len(), "tokens": n}));
+        });
+        for a in accs {
+            merge(&mut total, a);
+        }
+        families.push(json!({"family": "long inputs: lookahead fixtures and veryl (3 modes, 218 patterns) on their input files, synthetic inputs with lookaheads beyond offset 65 535", "cases": cases.iter().map(|c| c.0.clone()).collect::<Vec<_>>()}));
+    }
+
     // C07's own family: nullable patterns, nullable lookaheads, zero-pattern modes, 1-4 byte
     // characters; safety only.
     if prop == "C07" {
